@@ -24,6 +24,10 @@ Definition py_mwcount_c (t : trie) (w : str) : option Z := py_mw_get_count c_low
 Definition py_mwparse_c (t : trie) (s : str) : option (bool * list str) :=
   py_mw_parse c_lower c_threshold c_min_len c_max_len t s.
 
+(* train(pw) without the second argument *)
+Lemma side_default_set_threshold : py_mw_train_default_set_threshold = false.
+Proof. reflexivity. Qed.
+
 (* a training history: the calls train(pw, set_threshold) made on a fresh detector *)
 Fixpoint py_mw_history (t : trie) (h : list (bool * str)) : option trie :=
   match h with
@@ -257,12 +261,16 @@ Proof. reflexivity. Qed.
 
 (* detect_keyboard_walk(password) as parse() calls it (fuel: one more than the model's) *)
 Definition py_keyboard_walk_c (pw : str) : option (list section * list str * list str) :=
-  py_detect_keyboard_walk c_isalpha c_isdigit c_lower (S (length pw)) pw 4.
+  py_detect_keyboard_walk c_isalpha c_isdigit c_lower (S (length pw)) pw py_detect_keyboard_walk_default_min_keyboard_run.
+
+(* the default the source gives min_keyboard_run is the one the recursive call and the model use *)
+Lemma side_default_min_run : py_detect_keyboard_walk_default_min_keyboard_run = 4.
+Proof. reflexivity. Qed.
 
 Theorem py_keyboard_walk_c_is_model pw :
   kw_view (py_keyboard_walk_c pw) =
   detect_keyboard_walk c_isalpha c_isdigit c_lower c_kbs kb_false_positive_words c_min_run (length pw) pw.
-Proof. unfold py_keyboard_walk_c. rewrite py_detect_keyboard_walk_eq, side_py_kbs. reflexivity. Qed.
+Proof. unfold py_keyboard_walk_c. rewrite side_default_min_run, py_detect_keyboard_walk_eq, side_py_kbs. reflexivity. Qed.
 
 (* keyboard_split_ok for the translated detector: it does not raise (the fuel of the
    recursion suffices), its sections tile the password and are soundly labelled *)
